@@ -874,6 +874,27 @@ impl<'a, 'b> SGen<'a, 'b> {
         for _ in 0..n_q {
             v.push(self.qubit_decl());
         }
+        // aliases of declared qubits / registers (file level, before any expression-like statement;
+        // the alias names are fresh and never used again)
+        if self.src.chance(1, 4) {
+            let qs = self.visible(|k| matches!(k, EKind::Qubit | EKind::QReg(_)));
+            if !qs.is_empty() {
+                let (q, k) = qs[self.src.below(qs.len())].clone();
+                let value = match k {
+                    EKind::QReg(n) if n >= 2 && self.src.bool() => Expr::IndexedId(q, vec![Index::List(vec![IndexItem::Range(lit_int(0), None, lit_int(n - 1))])]),
+                    _ => Expr::Ident(q),
+                };
+                v.push(Stmt::Alias { name: format!("al{}", v.len()), value });
+            }
+        }
+        // input / output declarations
+        if self.src.chance(1, 4) {
+            let ty = [STy::Int(None), STy::Float(Some(64)), STy::Angle(Some(32)), STy::Bool, STy::Int(Some(8))][self.src.below(5)].clone();
+            let input = self.src.bool();
+            let name = self.decl_name(VARS);
+            self.bind(&name, EKind::Var { ty: ty.clone(), konst: false });
+            v.push(Stmt::IoDecl { input, ty: sty_to_ty(&ty), name });
+        }
         let n_c = self.src.below(4);
         for _ in 0..n_c {
             v.push(self.classical_decl());
